@@ -161,14 +161,26 @@ func (t *Tokenizer) tokenizeBuffer(buf []byte, last bool) {
 	depth := len(t.starts)
 	for off = 0; off < len(buf); off++ {
 		b = buf[off]
-		if 256 < len(t.mode) && t.mode[256] == 't' {
-			switch b {
-			case ':', '[', '{', '/', '"', '\'':
-				// A token continued from an earlier buffer ends here. Handle
-				// that the same way the scan in tokenStart does.
-				t.addToken(string(t.tmp))
-				off--
-				goto deliver
+		if 256 < len(t.mode) {
+			switch t.mode[256] {
+			case 't':
+				switch b {
+				case ':', '[', '{', '/', '"', '\'':
+					// A token continued from an earlier buffer ends here. Handle
+					// that the same way the scan in tokenStart does.
+					t.addToken(string(t.tmp))
+					off--
+					goto deliver
+				}
+			case 'n':
+				switch b {
+				case '[', '{', '/':
+					// Report the number and, on the top level, finish the
+					// document before starting on what follows.
+					t.handleNum(off)
+					off--
+					goto deliver
+				}
 			}
 		}
 		switch t.mode[b] {
